@@ -13,7 +13,7 @@ func init() {
 		ID: "C01", Level: "fault_enumeration",
 		Rule: "real ReconnectClient, and RetryClient driven through the Retryer contract by a hand-written loop (Resubscribe/Retry in both orders), on the in-memory transport against a conforming broker model; canonical workloads (requests before Connect, after Connect, without waiting, waiting, during an outage, caller-set ids) x configurations (QoS2 method A/B, session kept/lost, AlwaysResubscribe, read chunking, late-write style) x " +
 			"every single cut of 4 kinds (before/after processing, write error or not, response delivered or not) at every request-packet ordinal, exhaustive cut pairs for short workloads, seeded random plans of up to 6 faults incl. refused/absent CONNACK and dial failures, " +
-			"and steered submissions while the reconnect goroutine is parked inside the Dialer / inside a ConnectOption (between SetClient and BaseClient.Connect). Each run ends with stabilise -> sentinel publish -> quiescence (sentinel acknowledged, queues empty) or a certified-stuck certificate. " +
+			"and steered submissions while the reconnect goroutine is parked inside the Dialer / inside a ConnectOption (between SetClient and BaseClient.Connect), and submissions made from inside the ConnState(Active) and OnError callbacks. Each run ends with stabilise -> sentinel publish -> quiescence (sentinel acknowledged, queues empty) or a certified-stuck certificate. " +
 			"Oracle: obligation ledger - every accepted QoS>=1 publish / subscribe / unsubscribe has an acknowledgement that was sent and consumed on some connection. Non-trivial: distinct (workload, config, fired-fault shape, steering) in which at least one fault fired or a steered submission happened.",
 		Assumptions: []string{"fault model of DESIGN.md 2.4 (no write error after the peer processed the bytes, no partial writes)", "identical subscribe/unsubscribe requests are matched by count", "runs in which two in-flight messages got the same packet id (ids are re-randomised per connection) are skipped as ambiguous"},
 		Gen: func(tier string, seed int64) []fw.Case {
@@ -50,7 +50,7 @@ func init() {
 		Gen: func(tier string, seed int64) []fw.Case {
 			return genRetry(retrySpec{
 				Workloads:   []string{"q2x1", "q2x2", "q2x3", "q2mix", "mixed", "preset"},
-				Configs:     cfgs(allMethods, []string{"keep"}, []bool{false}),
+				Configs:     withClients(cfgs(allMethods, []string{"keep"}, []bool{false}), 1, "retry"),
 				Singles:     true,
 				Pairs:       pick(tier, []string{"q2x1", "q2x2"}, []string{"q2x1", "q2x2", "q2x3", "q2mix"}),
 				PairsSample: scale(tier, 60, 3000),
